@@ -42,12 +42,17 @@ Faults (set_fault / script / control endpoint), applied per table request:
 `refuse` cannot tell lookups apart (no request arrives): where="destination" closes the listener while the access
 lookup of the same request is being answered; where="origin" behaves like "both".
 
+Measured against the real client (Simple-Web-Server client_http.hpp): a connection that is closed before any reply byte
+(`drop`) is retried ONCE on a new connection -- a single scripted `drop` (script entry or count=1) is therefore masked by
+the retry, two consecutive ones reach the caller as "no stop"; `truncate`, `http500` and the malformed bodies are not retried.
+
 A drop / truncation must really shut the socket down (self.close_connection = True; shutdown(SHUT_RDWR)): the
 trRouting client has no time-out and would otherwise hang for ever on a half-open connection (stub artefact).
 
 Use in-process:  s = Stub(access, egress); s.start(); s.set_fault("drop", where="origin", count=1); ...; s.stop()
 Stand-alone:     osrm_stub.py --port P (--dataset file.txt | --tables file.json) [--script faults.txt]
                  control endpoint: GET /control/fault/<kind>[/<where>[/<count>]]   GET /control/log   GET /control/reset
+                 (stand-alone, `refuse` closes the one listener, so the control endpoint is gone too: restart the stub)
 """
 import http.server, json, socket, sys, threading, time
 
